@@ -74,6 +74,31 @@ def gen_case(rng, tier, idx):
         n = rng.randint(20, 200)
         rows = streams.make_rows(rng, n, "walk", step, rng.choice(["regular", "jitter", "gaps", "dups"]), unit, max_gap_buckets=8)
         sch = schedules.rand_schedule(rng, n, bucket=per_bucket)
+    if not generous and rng.random() < 0.12:
+        life_units = 0  # the smallest legal lifespan: only candles carrying the newest timestamp survive
+    if generous and rng.random() < 0.25:
+        # "recursive_narrow": purely recursive indicators need ONE predecessor once warmed up. Dense warm-up (the window holds far more
+        # than a period), then a sparse feed (the window holds 2-4 candles), single-candle appends: readings must equal the untrimmed run.
+        cls_r = rng.choice(["EMA", "RMA", "ATR", "RSI", "MACD", "KC", "TSI", "Supertrend", "ADX", "OBV", "VWAP", "TR", "Counter"])
+        cfg = {"cls": cls_r, "kw": {k: v for k, v in configs.rand_kw(rng, cls_r, allow_input=False, max_period=8).items() if k != "round_value"}}
+        tfkind, tf = "none", None
+        lb2 = configs.lookback(cfg)
+        dense, sparse = 3 * lb2 + 10, rng.randint(15, 40)
+        s1 = rng.choice([1, 5, 60])
+        s2 = s1 * rng.choice([20, 50])
+        life = s2 * rng.randint(2, 4) + rng.choice([0, 1])
+        if life // s1 < 2 * lb2 + 4:
+            s2 = s1 * (2 * lb2 + 6)
+            life = s2 * 2 + 1
+        from datetime import datetime, timedelta
+        pr = streams.prices(rng, dense + sparse, rng.choice(["walk", "spiky", "flat_runs"]))
+        t, ts = datetime(2023, 6, 1, 9, 0, 0), []
+        for i in range(dense + sparse):
+            ts.append(t)
+            t = t + timedelta(seconds=s1 if i < dense else s2)
+        rows = streams.rows_from(pr, ts)
+        return {"cfg": cfg, "rows": rows, "schedule": {"preload": 1, "precalc": False, "chunks": [1] * (dense + sparse - 1), "enc": "candle"},
+                "lifespan_s": life, "generous": True, "tfkind": "none", "mode": "recursive_narrow"}
     ha_ok = generous
     if not generous and rng.random() < 0.4:
         # "preload_long": a history longer than the lifespan is handed over at construction, then small appends. The window keeps
@@ -98,7 +123,7 @@ def gen_case(rng, tier, idx):
 def run_case(case):
     cfg, rows, sch = case["cfg"], case["rows"], case["schedule"]
     cls = cfg["cls"] if cfg["cls"] != "Amorph" else f"Amorph:{cfg['analysis']}"
-    stats = {"classes_seen": [cls], "modes": {"generous" if case["generous"] else "tight": 1}, "tfkinds": {case["tfkind"]: 1},
+    stats = {"classes_seen": [cls], "modes": {case.get("mode") or ("generous" if case["generous"] else "tight"): 1}, "tfkinds": {case["tfkind"]: 1},
              "candlestick": {"HA" if cfg["kw"].get("candlestick_type") else "none": 1}}
     viol = []
     life = timedelta(seconds=case["lifespan_s"])
